@@ -211,7 +211,7 @@ func c11Integrated(e *Env) {
 		return it
 	}
 
-	nSteps := e.Range(3, 40)
+	nSteps := e.Range(3, 40*e.Depth())
 	for step := 0; step < nSteps; step++ {
 		e.Settle()
 		absorb()
